@@ -13,13 +13,14 @@ HARNESSES = {
     "u53_narrow": "uuuu", "i54_narrow": "ssss",
     "u53_order": "uu", "i54_order": "ss",
     "u53_deserialize": "u", "i54_deserialize": "s",
+    "u53_deserialize_f64": "u", "i54_deserialize_f64": "u",
     "u53_serialize": "u", "i54_serialize": "s",
     "limits": "",
 }
 FUNCS = ["<U53 as TryFrom<u64>>::try_from", "<I54 as TryFrom<i64>>::try_from", "From<U53> for u64", "From<I54> for i64",
          "From<u8|u16|u32> for U53", "From<i8|i16|i32> for I54", "TryFrom<U53> for u8|u16|u32", "TryFrom<I54> for i8|i16|i32",
          "derived PartialEq/Eq/PartialOrd/Ord for U53, I54", "PartialEq<u64>/PartialOrd<u64> for U53 (i64 for I54)",
-         "derived Deserialize (serde(try_from)) for U53, I54", "derived Serialize for U53, I54",
+         "derived Deserialize (serde(try_from)) for U53, I54 from integer and from floating point tokens", "derived Serialize for U53, I54",
          "usize_from_u53_saturated", "U53::MIN/MAX, I54::MIN/MAX"]
 
 
@@ -47,6 +48,10 @@ def boundary_probe(h):
     if not sig:
         return None
     pools = [U_BOUNDS if c == "u" else S_BOUNDS for c in sig]
+    if h.endswith("_f64"):
+        import struct
+        fl = [14.5, 14.0, 0.5, -0.999, 1e-3, 1e3, 9007199254740990.5, 9007199254740991.0, 9007199254740992.0, -14.5, 0.0, -0.0, float("inf"), float("-inf"), float("nan"), 1.8e19]
+        pools = [[struct.unpack("<Q", struct.pack("<d", x))[0] for x in fl]]
     if len(sig) == 1:
         tuples = [(v,) for v in pools[0]]
     elif len(sig) == 2:
@@ -77,7 +82,7 @@ def run(rep, tier, only=None):
                    "32-bit targets for usize_from_u53_saturated"]
     rep.extra["fallback"] = "a harness without a CBMC verdict (time-out) is probed on boundary values through the real code: a failure is reported, absence of one stays INCONCLUSIVE"
     rep.assumptions = ["Kani 0.68 / CBMC 6.11 model of the compiled dev-profile MIR of /repo/lib and serde",
-                       "serde::de::value::{U64,I64}Deserializer stand in for a JSON number already lexed to u64/i64"]
+                       "serde::de::value::{U64,I64,F64}Deserializer stand in for a JSON number already lexed to u64/i64/f64 (the f64 harnesses use an error type that does not format its message)"]
     rep.extra["checker_cmd"] = "cargo kani --output-format terse -Z concrete-playback --concrete-playback=print (kani/c18)"
     for h, sig in HARNESSES.items():
         full = "proofs::" + h
